@@ -770,9 +770,12 @@ class ExcelCompiler:
             if excel_data.address != address:
                 # if the actual data returned is not the same as the address
                 # given, then use a reference
-                self.cell_map[str(address)] = self.Cell(
+                alias = self.Cell(
                     address, formula=REF_FORMAT.format(excel_data.address),
                     excel=self.excel)
+                self.cell_map[str(address)] = alias
+                # the reference depends on the range it refers to
+                add_node_to_graph(alias)
 
             self.range_todos.append(str(excel_data.address))
             new_nodes = build_range(excel_data)
